@@ -207,8 +207,8 @@ Proof.
   destruct k; cbn in H1; lia.
 Qed.
 
-Lemma num_event_int lossy k z : int_in_range k z = true ->
-  num_event lossy (z_dec z) = if 0 <=? z then EvU z else EvI z.
+Lemma num_event_int k z : int_in_range k z = true ->
+  num_event (z_dec z) = if 0 <=? z then EvU z else EvI z.
 Proof.
   intros Hr. unfold num_event, as_u64, as_i64.
   destruct (Z.leb_spec 0 z) as [Hz|Hz].
@@ -217,10 +217,10 @@ Proof.
     rewrite (parse_int_z_dec I64 z (int_in_range_i64 k z Hz Hr)). reflexivity.
 Qed.
 
-Lemma de_int_roundtrip lossy k z : int_in_range k z = true ->
-  de_int k (num_event lossy (z_dec z)) = Ok (SdInt k z).
+Lemma de_int_roundtrip k z : int_in_range k z = true ->
+  de_int k (num_event (z_dec z)) = Ok (SdInt k z).
 Proof.
-  intros Hr. rewrite (num_event_int lossy k z Hr).
+  intros Hr. rewrite (num_event_int k z Hr).
   pose proof Hr as Hr'. unfold int_in_range in Hr'. apply andb_true_iff in Hr'. destruct Hr' as [_ H2].
   destruct (0 <=? z); cbn [de_int]; [rewrite H2|rewrite Hr]; reflexivity.
 Qed.
